@@ -115,10 +115,34 @@ def d2(ctx, F):
     ctx.check(not statics, "C17.D2.no-shared-state", "router-statics", "no statics in the router / sink modules (%s)" % statics)
 
 
+def d3(ctx, F):
+    """transport-level sharing between topics: all of a client's streams share one QUIC connection, so the connection-level flow-control
+    window must not be capped at (or below) the per-stream window — otherwise the unread bytes of one stalled topic's stream use up the
+    credit of the whole connection and the client's other topics stop too. quinn's default connection window is unlimited."""
+    sc = F.inlined(F.body("selium_server::quic::server_config"))
+    ctx.touch(F.body("selium_server::quic::server_config"))
+    def val(c):
+        r = flow.root(sc, c.args[1], through_calls=flow.ADAPTERS | {"quinn_proto::varint::VarInt::from_u32", "quinn_proto::varint::VarInt::from_u64"})
+        v = flow.const_of(r[1]) if r[0] == "const" else None
+        return v
+    conn = [c for c in sc.calls() if c.name() == "receive_window" and "TransportConfig" in c.callee]
+    strm = [c for c in sc.calls() if c.name() == "stream_receive_window" and "TransportConfig" in c.callee]
+    ok = True
+    why = "the connection-level receive window is left at quinn's default (unlimited)"
+    if conn:
+        cv = [val(c) for c in conn]
+        sv = [val(c) for c in strm] or [1_250_000]        # quinn's default stream window is on the order of a megabyte
+        ok = all(v is not None for v in cv) and all(v is not None for v in sv) and min(cv) >= 4 * max(sv)
+        why = "connection window %s vs stream window %s (must leave room for several stalled streams)" % (cv, sv)
+    ctx.check(ok, "C17.D3.connection-window", "quic:connection-window-capped", "one stalled stream cannot exhaust a client's connection-level flow control: " + why,
+              (conn or [sc])[0].span)
+
+
 def run(ctx):
     F = ctx.facts("quick")
     d1(ctx, F)
     d2(ctx, F)
+    d3(ctx, F)
     if ctx.tier == "thorough":
         FF = ctx.facts("allfeatures")
         d1(ctx, FF, "[all-features]")
